@@ -43,6 +43,11 @@ type Call struct {
 	// before it reaches the device: the reply arrives while the client is still writing.
 	SlowWrite int `json:"slow_write,omitempty"`
 	SlowMs    int `json:"slow_ms,omitempty"`
+	// plan forced: Force=held - the reply is held until the caller's goroutine reaches the yield point
+	// nc.rpc.before-wait, released there, and the caller is kept there until the read loop filed it;
+	// Force=parked (control) - the reply is released ParkMs after the call started.
+	Force  string `json:"force,omitempty"`
+	ParkMs int    `json:"park_ms,omitempty"`
 	// Collide: the body carries an element whose name collides with a token the library scans the
 	// stream for (hello, capability, session-id, subscription-id, subscription-result, rpc-error-count,
 	// ok); the element itself is part of Fill.
@@ -279,6 +284,8 @@ func GenSession(r *rand.Rand, idx int) Session {
 	switch {
 	case idx%5 == 2: // a fixed share of sessions with replies that straddle the caller's deadline
 		s.Profile = "straddle"
+	case idx%15 == 11: // forced schedules at the library's yield points (run solo)
+		s.Profile = "forced"
 	case idx%9 == 4: // replies of 150-300 KiB followed back-to-back by another server message
 		s.Profile = "big"
 	case idx%9 == 7: // the reply arrives while the client is still writing the trailing return
@@ -325,6 +332,9 @@ func GenSession(r *rand.Rand, idx int) Session {
 	case "race":
 		n = 4 + r.Intn(5)
 		s.Seg = segs[r.Intn(len(segs))]
+	case "forced":
+		n = 4 + r.Intn(5)
+		s.Seg = segs[r.Intn(len(segs))]
 	default:
 		s.Seg = segs[r.Intn(len(segs))]
 	}
@@ -352,7 +362,7 @@ func GenSession(r *rand.Rand, idx int) Session {
 		maxFill = 120
 	case s.Profile == "long":
 		maxFill = 200
-	case s.Profile == "straddle", s.Profile == "big", s.Profile == "race":
+	case s.Profile == "straddle", s.Profile == "big", s.Profile == "race", s.Profile == "forced":
 		maxFill = 300
 	}
 	releases := []string{"before-next", "before-next", "with-next-before", "next-write-1", "next-write-2", "after-next", "after-2", "at-end"}
@@ -395,6 +405,17 @@ func GenSession(r *rand.Rand, idx int) Session {
 			case k == 0, q < 60:
 				c.Plan, huge = "now", true // no-timeout variant
 			case q < 90:
+				c.Plan = "now"
+			default:
+				c.Plan = "never"
+			}
+		case "forced":
+			switch {
+			case q < 55:
+				c.Plan, c.Force = "forced", "held"
+			case q < 75:
+				c.Plan, c.Force, c.ParkMs = "forced", "parked", 20+r.Intn(61)
+			case q < 92:
 				c.Plan = "now"
 			default:
 				c.Plan = "never"
